@@ -228,6 +228,7 @@ func (co *ClipperOffset) CheckPathsReversed() bool {
 }
 
 func (co *ClipperOffset) Execute64(delta float64, solution *Paths64) {
+	*solution = (*solution)[:0]
 	co.solution = solution
 	co.executeInternal(delta)
 }
